@@ -319,7 +319,7 @@ def job_projection(seed):
     Vall = Mx(n, 4, [[Vold.g(i, j) if j < 3 else w.g(i, 0) for j in range(4)] for i in range(n)])
     U = Mx.sym('u', 3, 2)
     rep = {'__class__': 'RitzEigenPair', 'U': U, 'q': Vold * U}
-    proj = {'__class__': 'ProjectedSpace', 'V': Vall.copy(), 'AV': (A * Vold).copy(), 'T': (Vold.transpose() * (A * Vold)).copy(), 'AAV': Mx(0, 0), 'B': Mx(0, 0)}
+    proj = {'__class__': 'ProjectedSpace', 'V': Vall.copy(), 'AV': (A * Vold).copy(), 'T': (Vold.transpose() * (A * Vold)).copy(), 'AAV': Mx(0, 0), 'B': Mx(0, 0), 'size_update': 3, 'root_converged': rvc.BoolArr([True, True, False])}
     this = {'__class__': 'DavidsonSolver', 'restart_size_': 2, 'matrix_type_': 'SYMM'}
     def construct(ex_, n_, ty, args):
         if re.search(r'Matrix<double, -1, -1|MatrixXd', ty + n_['type'].get('desugaredQualType', '')) and len(args) == 2:
